@@ -487,8 +487,10 @@ package core
 //@   loop 1 invariant 0 - 1 <= rangeindex && rangeindex <= rangelen - 1 && !has(visited, target) && (forall k string :: old(has(visited, k)) ==> has(visited, k))
 //@   loop 1 frame visited
 //@ func (*JApiCore).findPaste
-//@   tag C07 C01
+//@   tag C07 C11 C01
 //@   requires core != nil && DirWF(d) && !isnil(d.includeTracer)
+//@   ensures [C11] d.type_ == 22 && !(has(d.namedParameters, "Name") && d.namedParameters["Name"] != "") ==> ret != nil && ret.index == d.keywordCoords.begin
+//@   ensures [C07] d.type_ == 22 && has(d.namedParameters, "Name") && d.namedParameters["Name"] == macroName ==> ret != nil && ret.index == d.keywordCoords.begin
 //@   unclaimed #requires@findPaste children of a macro body are not known to be well-formed here
 //@   unclaimed #nil-deref children of a macro body are not known to be non-nil here
-//@   loop 1 invariant 0 - 1 <= rangeindex && rangeindex <= rangelen - 1
+//@   loop 1 invariant 0 - 1 <= rangeindex && rangeindex <= rangelen - 1 && d.type_ != 22
